@@ -6,7 +6,7 @@ BUDGET = {
     "quick": dict(shards=16, cases=1920, deadline=70),
     "thorough": dict(shards=16, cases=10000, deadline=1200),
 }
-DECIDING = ["sm.write"]
+DECIDING = ["sm.write", "fileio.write_file"]
 RULE = ("In-memory mapsets with objects of all seven kinds on k/d beats (d in the declared divisions) of their own tempo "
         "list: tempo changes on measure lines (exact clause) and off them (1/96-beat clause), selectable=False, "
         "leading empty measures, measures whose LCM exceeds 384, unsorted lists, 3/4/6/7/8-key chart types, 1..3 charts "
@@ -67,3 +67,6 @@ def run(ctx, case):
         ms.write()
     except Exception:
         pass
+    if ctx.cur_k is not None and ctx.cur_k % 4 == 1:
+        from rv.monitors import fileio
+        fileio.check_write_file(ctx, "C03", ms, kind="text")
